@@ -70,6 +70,8 @@ pub struct Profile {
     /// collections whose element count sits on the 23/24 CBOR head edge (outputs, withdrawals,
     /// certificates, required signers, assets of one policy, offered UTxOs)
     pub many: u64,
+    /// deposits, refunds and withdrawals whose sums sit at the 64-bit boundary (C20's overflow clause)
+    pub huge: u64,
 }
 
 impl Profile {
@@ -117,6 +119,7 @@ impl Profile {
             decoded_outputs: 120,
             observers: 120,
             many: 60,
+            huge: 0,
         }
     }
 }
@@ -138,6 +141,7 @@ pub struct Gen<'p> {
     pub datum_holder: BTreeMap<DatumId, usize>,
     pub key_pool: u16,
     pub many: bool,
+    pub huge: bool,
 }
 
 impl<'p> Gen<'p> {
@@ -159,9 +163,10 @@ impl<'p> Gen<'p> {
             k.ref_script_price = Some((15, 1));
         }
         let many = pm(&mut r, p.many);
+        let huge = pm(&mut r, p.huge);
         let key_pool = if many { 40 } else if pm(&mut r, p.overlap_keys) { 2 + r.below(2) as u16 } else { NKEYS };
         let w = World { network: r.below(2) as u8, magic: if r.chance(1, 2) { 764824073 } else { 1097911063 }, scripts: vec![], datums: vec![], utxos: vec![] };
-        let mut g = Gen { r, p, k, w, next_tx: 1, red: 1, native_ids: vec![], plutus_ids: vec![], ref_holder: BTreeMap::new(), datum_holder: BTreeMap::new(), key_pool, many };
+        let mut g = Gen { r, p, k, w, next_tx: 1, red: 1, native_ids: vec![], plutus_ids: vec![], ref_holder: BTreeMap::new(), datum_holder: BTreeMap::new(), key_pool, many, huge };
         g.make_scripts();
         g.make_datums();
         g
@@ -262,7 +267,7 @@ impl<'p> Gen<'p> {
         let tx = self.next_tx;
         self.next_tx += 1;
         let share = self.r.chance(1, 5) && tx > 1;
-        let u = Utxo { tx: if share { tx - 1 } else { tx }, ix: if share { 100 + tx } else { *self.r.pick(&[0u32, 0, 1, 2, 23, 24, 255, 256]) }, addr, coin, assets, datum, script_ref };
+        let u = Utxo { tx: if share { tx - 1 } else { tx }, ix: if share { 100 + tx } else { *self.r.pick(&[0u32, 0, 1, 2, 23, 24, 255, 256]) }, addr, coin, empty_ma: assets.is_empty() && self.r.chance(1, 12), assets, datum, script_ref };
         self.w.utxos.push(u);
         self.w.utxos.len() - 1
     }
@@ -411,7 +416,11 @@ impl<'p> Gen<'p> {
         let legacy = pm(&mut self.r, self.p.legacy_certs);
         let c = self.any_cred(sp, allow_plutus);
         let kd = self.k.key_deposit;
-        let dep = *self.r.pick(&[0u64, 1, kd, 2_000_000, 65536, 500_000_000]);
+        let dep = if self.huge && self.r.chance(1, 2) {
+            *self.r.pick(&[1u64 << 63, (1u64 << 63) - 1, u64::MAX, u64::MAX - kd, u64::MAX / 2, (1u64 << 62) + 1, u64::MAX - 2_000_000])
+        } else {
+            *self.r.pick(&[0u64, 1, kd, 2_000_000, 65536, 500_000_000])
+        };
         let kind = if legacy { self.r.below(22) } else { self.r.below(19) };
         let spec = match kind {
             0 => CertSpec::StakeReg(c.clone()),
@@ -625,7 +634,7 @@ pub fn generate(seed: u64, tier: Tier, p: &Profile) -> Scenario {
         for wi in 0..n {
             let sp = p.script_certs;
             let c = if many_w.is_some() && wi >= 2 { Cred::Key(wi as u16) } else { g.any_cred(sp, true) };
-            let amt = g.amount() % 100_000_000;
+            let amt = if g.huge && g.r.chance(1, 2) { *g.r.pick(&[1u64 << 63, u64::MAX, (1u64 << 63) - 1, u64::MAX - 1_000_000]) } else { g.amount() % 100_000_000 };
             if !seen.insert(c.clone()) {
                 // the same key account registered again replaces the earlier amount; script accounts are not repeated
                 if let Cred::Key(_) = &c {
@@ -736,7 +745,7 @@ pub fn generate(seed: u64, tier: Tier, p: &Profile) -> Scenario {
                 _ => ActionSpec::Info,
             };
             let has_policy = matches!(&action, ActionSpec::ParamChange { policy: Some(_), .. } | ActionSpec::TreasuryWdr { policy: Some(_), .. });
-            let deposit = *g.r.pick(&[0u64, 1_000_000, 100_000_000_000, 65536]);
+            let deposit = if g.huge && g.r.chance(1, 2) { *g.r.pick(&[1u64 << 63, u64::MAX, (1u64 << 63) - 1]) } else { *g.r.pick(&[0u64, 1_000_000, 100_000_000_000, 65536]) };
             let wit = if has_policy {
                 let s = pol.unwrap();
                 plan.uses_plutus = true;
@@ -908,7 +917,7 @@ pub fn generate(seed: u64, tier: Tier, p: &Profile) -> Scenario {
 
     // ---- wallet UTxOs on offer
     let approx_fee = g.k.fee_b as u128 + g.k.fee_a as u128 * 1500 + 2_000_000;
-    let need = plan.need + approx_fee;
+    let need = (plan.need + approx_fee).min(1u128 << 60);
     let tight = pm(&mut g.r, p.tight);
     let n_off_edge = edge_count(&mut g);
     let n_off = if let Some(n) = n_off_edge {
